@@ -25,7 +25,7 @@ func extraCommand(cmd string, tab *SymTab, rd *os.File, bw *bufio.Writer, worker
 	case "detchild":
 		cmdDetChild(tab, rd, bw)
 	case "reimport":
-		cmdReimport(tab, bw, n, depth, seed)
+		cmdReimport(tab, rd, bw, n, depth, seed)
 	default:
 		return false
 	}
